@@ -129,7 +129,7 @@ def scenario(tier):
 
 
 def long_history(tier):
-    ROOT = "A001[C002] Übung 日"  # a folder name with glob metacharacters and multi-byte characters
+    ROOT = "A001[C002] Übung & <日>"  # a folder name with glob metacharacters, multi-byte and XML-special characters
 
     def fn(b, sym):
         b.mkfile(ROOT + "/clip.mov", 1)
